@@ -26,6 +26,12 @@ const (
 	DefaultSendBufSize    = 0xffff
 	DefaultMaxChunkCount  = 512
 	DefaultMaxMessageSize = 2 * MB
+
+	// MinBufSize is the smallest receive and send buffer size
+	// a Hello or Acknowledge message may carry.
+	//
+	// Specification: Part 6, 7.1.2.3 and 7.1.2.4
+	MinBufSize = 8192
 )
 
 var (
@@ -34,8 +40,8 @@ var (
 	DefaultClientACK = &Acknowledge{
 		ReceiveBufSize: DefaultReceiveBufSize,
 		SendBufSize:    DefaultSendBufSize,
-		MaxChunkCount:  0, // use what the server wants
-		MaxMessageSize: 0, // use what the server wants
+		MaxChunkCount:  0, // no limit for responses
+		MaxMessageSize: 0, // no limit for responses
 	}
 
 	// DefaultServerACK is the ACK handshake message sent to the client
@@ -190,8 +196,20 @@ func (l *Listener) Endpoint() string {
 
 type Conn struct {
 	*net.TCPConn
-	id  uint32
+	id uint32
+
+	// ack holds the local view of the connection parameters:
+	// ReceiveBufSize is the largest chunk this side accepts,
+	// SendBufSize is the largest chunk this side may send and
+	// MaxMessageSize and MaxChunkCount limit the messages this
+	// side accepts (0 means no limit). Before the handshake it
+	// contains the values requested by the application.
 	ack *Acknowledge
+
+	// peerMaxMessageSize and peerMaxChunkCount are the limits the
+	// peer announced for the messages it accepts (0 means no limit).
+	peerMaxMessageSize uint32
+	peerMaxChunkCount  uint32
 
 	closeOnce sync.Once
 }
@@ -224,6 +242,18 @@ func (c *Conn) MaxMessageSize() uint32 {
 
 func (c *Conn) MaxChunkCount() uint32 {
 	return c.ack.MaxChunkCount
+}
+
+// PeerMaxMessageSize returns the maximum size of a message the peer
+// accepts. Zero means that the peer has no limit.
+func (c *Conn) PeerMaxMessageSize() uint32 {
+	return c.peerMaxMessageSize
+}
+
+// PeerMaxChunkCount returns the maximum number of chunks of a message
+// the peer accepts. Zero means that the peer has no limit.
+func (c *Conn) PeerMaxChunkCount() uint32 {
+	return c.peerMaxChunkCount
 }
 
 func (c *Conn) Close() (err error) {
@@ -274,16 +304,19 @@ func (c *Conn) Handshake(ctx context.Context, endpoint string) error {
 		if ack.Version != 0 {
 			return errors.Errorf("uacp: invalid version %d", ack.Version)
 		}
-		if ack.MaxChunkCount == 0 {
-			ack.MaxChunkCount = DefaultMaxChunkCount
-			debug.Printf("uacp %d: server has no chunk limit. Using %d", c.id, ack.MaxChunkCount)
-		}
-		if ack.MaxMessageSize == 0 {
-			ack.MaxMessageSize = DefaultMaxMessageSize
-			debug.Printf("uacp %d: server has no message size limit. Using %d", c.id, ack.MaxMessageSize)
-		}
-		c.ack = ack
 		debug.Printf("uacp %d: recv %#v", c.id, ack)
+
+		// The ACK describes the server side of the connection: its receive
+		// buffer bounds the chunks we send and its message limits apply to
+		// the requests we send. Our own receive buffer and the limits for
+		// responses are the ones we announced in the HEL.
+		local := *c.ack
+		if ack.ReceiveBufSize < local.SendBufSize {
+			local.SendBufSize = ack.ReceiveBufSize
+		}
+		c.ack = &local
+		c.peerMaxMessageSize = ack.MaxMessageSize
+		c.peerMaxChunkCount = ack.MaxChunkCount
 		return nil
 
 	case "ERRF":
@@ -330,6 +363,26 @@ func (c *Conn) srvhandshake(endpoint string) error {
 		//	c.SendError(ua.StatusBadTCPEndpointURLInvalid)
 		//	return fmt.Errorf("uacp: invalid endpoint url %s", hel.EndpointURL)
 		//}
+		if hel.ReceiveBufSize < MinBufSize || hel.SendBufSize < MinBufSize {
+			c.SendError(ua.StatusBadConnectionRejected)
+			return errors.Errorf("uacp: invalid buffer sizes in HEL: receive %d, send %d", hel.ReceiveBufSize, hel.SendBufSize)
+		}
+
+		// Revise the connection parameters. The listener's ACK is shared
+		// between all connections. We must neither receive more than the
+		// client sends nor send more than the client can receive. The
+		// message limits of the HEL apply to the responses we send.
+		ack := *c.ack
+		if hel.SendBufSize < ack.ReceiveBufSize {
+			ack.ReceiveBufSize = hel.SendBufSize
+		}
+		if hel.ReceiveBufSize < ack.SendBufSize {
+			ack.SendBufSize = hel.ReceiveBufSize
+		}
+		c.ack = &ack
+		c.peerMaxMessageSize = hel.MaxMessageSize
+		c.peerMaxChunkCount = hel.MaxChunkCount
+
 		if err := c.Send("ACKF", c.ack); err != nil {
 			c.SendError(ua.StatusBadTCPInternalError)
 			return err
